@@ -18,6 +18,7 @@
 \*   Explicitize / Implicitize   write the inherited value on the element / drop a value equal to the inherited
 \*   HoistClass / SinkClass      class= on every child  <->  childclass= on the body
 \*   WrapFrame    put an element into a new frame F and give it the local pose  F^-1 o P
+\*                (optionally moving a geom's class= to the frame's childclass=)
 \*   Unroll       <replicate count offset euler> around a geom  ->  the copies written out (names name_k)
 \*   ToggleFuse, ToggleDiscard   compiler flags (only the surviving elements are compared)
 \*   EditMass     a runtime edit of a real-valued parameter: mj_setConst on the compiled model must equal
@@ -41,28 +42,31 @@ CONSTANTS MaxNodes, MaxRewrites,
           Bug           \* "none" | "wrapinv" (WrapFrame forgets to invert the frame: negative control)
 
 \* ---- integer vectors and matrices (row major 9-tuples) ---------------------------------------------------
+\* (results are built as explicit tuples: TLC keeps [x \in S |-> e] lazy and would re-evaluate nested products)
 I3 == <<1, 0, 0, 0, 1, 0, 0, 0, 1>>
 E(M, i, j) == M[3 * (i - 1) + j]
-MMul(A, B) == [x \in 1..9 |-> LET i == (x - 1) \div 3 + 1  j == ((x - 1) % 3) + 1 IN
-                E(A, i, 1) * E(B, 1, j) + E(A, i, 2) * E(B, 2, j) + E(A, i, 3) * E(B, 3, j)]
-MT(A) == [x \in 1..9 |-> LET i == (x - 1) \div 3 + 1  j == ((x - 1) % 3) + 1 IN E(A, j, i)]
-MV(A, v) == [i \in 1..3 |-> E(A, i, 1) * v[1] + E(A, i, 2) * v[2] + E(A, i, 3) * v[3]]
-VAdd(u, v) == [i \in 1..3 |-> u[i] + v[i]]
-VNeg(u) == [i \in 1..3 |-> -u[i]]
-VScl(s, u) == [i \in 1..3 |-> s * u[i]]
+Tup9(f) == <<f[1], f[2], f[3], f[4], f[5], f[6], f[7], f[8], f[9]>>
+Tup3(f) == <<f[1], f[2], f[3]>>
+MMul(A, B) == Tup9([x \in 1..9 |-> LET i == (x - 1) \div 3 + 1  j == ((x - 1) % 3) + 1 IN
+                E(A, i, 1) * E(B, 1, j) + E(A, i, 2) * E(B, 2, j) + E(A, i, 3) * E(B, 3, j)])
+MT(A) == Tup9([x \in 1..9 |-> LET i == (x - 1) \div 3 + 1  j == ((x - 1) % 3) + 1 IN E(A, j, i)])
+MV(A, v) == Tup3([i \in 1..3 |-> E(A, i, 1) * v[1] + E(A, i, 2) * v[2] + E(A, i, 3) * v[3]])
+VAdd(u, v) == <<u[1] + v[1], u[2] + v[2], u[3] + v[3]>>
+VNeg(u) == <<-u[1], -u[2], -u[3]>>
+VScl(s, u) == <<s * u[1], s * u[2], s * u[3]>>
 Dot(u, v) == u[1] * v[1] + u[2] * v[2] + u[3] * v[3]
 Cross(u, v) == <<u[2] * v[3] - u[3] * v[2], u[3] * v[1] - u[1] * v[3], u[1] * v[2] - u[2] * v[1]>>
 Sgn(x) == IF x > 0 THEN 1 ELSE IF x < 0 THEN -1 ELSE 0
-Unit(v) == [i \in 1..3 |-> Sgn(v[i])]                 \* for axis-aligned vectors
+Unit(v) == <<Sgn(v[1]), Sgn(v[2]), Sgn(v[3])>>         \* for axis-aligned vectors
 Cols(x, y, z) == <<x[1], y[1], z[1], x[2], y[2], z[2], x[3], y[3], z[3]>>
 Det(A) == E(A,1,1) * (E(A,2,2) * E(A,3,3) - E(A,2,3) * E(A,3,2)) - E(A,1,2) * (E(A,2,1) * E(A,3,3) - E(A,2,3) * E(A,3,1))
         + E(A,1,3) * (E(A,2,1) * E(A,3,2) - E(A,2,2) * E(A,3,1))
 Skew(a) == <<0, -a[3], a[2],  a[3], 0, -a[1],  -a[2], a[1], 0>>
-Outer(a) == [x \in 1..9 |-> LET i == (x - 1) \div 3 + 1  j == ((x - 1) % 3) + 1 IN a[i] * a[j]]
+Outer(a) == Tup9([x \in 1..9 |-> LET i == (x - 1) \div 3 + 1  j == ((x - 1) % 3) + 1 IN a[i] * a[j]])
 
 \* the 24 rotations: signed permutation matrices of determinant 1, in a fixed order
 Perm3 == {p \in [1..3 -> 1..3] : p[1] # p[2] /\ p[1] # p[3] /\ p[2] # p[3]}
-SPM(p, s) == [x \in 1..9 |-> LET i == (x - 1) \div 3 + 1  j == ((x - 1) % 3) + 1 IN IF p[i] = j THEN s[i] ELSE 0]
+SPM(p, s) == Tup9([x \in 1..9 |-> LET i == (x - 1) \div 3 + 1  j == ((x - 1) % 3) + 1 IN IF p[i] = j THEN s[i] ELSE 0])
 Rot24 == {m \in {SPM(p, s) : p \in Perm3, s \in [1..3 -> {-1, 1}]} : Det(m) = 1}
 
 \* ---- spellings and their meaning --------------------------------------------------------------------------
@@ -73,12 +77,12 @@ Cos4(k) == CASE k % 4 = 0 -> 1 [] k % 4 = 1 -> 0 [] k % 4 = 2 -> -1 [] OTHER -> 
 Sin4(k) == CASE k % 4 = 0 -> 0 [] k % 4 = 1 -> 1 [] k % 4 = 2 -> 0 [] OTHER -> -1
 AxisAngle(a, k) ==
   LET L == Dot(a, a) IN
-  IF L = 1 THEN [x \in 1..9 |-> Cos4(k) * I3[x] + Sin4(k) * Skew(a)[x] + (1 - Cos4(k)) * Outer(a)[x]]
-  ELSE IF L = 2 THEN [x \in 1..9 |-> -I3[x] + Outer(a)[x]]
-  ELSE [x \in 1..9 |-> (-I3[x] + (IF k = 1 THEN 1 ELSE -1) * Skew(a)[x] + Outer(a)[x]) \div 2]
+  IF L = 1 THEN Tup9([x \in 1..9 |-> Cos4(k) * I3[x] + Sin4(k) * Skew(a)[x] + (1 - Cos4(k)) * Outer(a)[x]])
+  ELSE IF L = 2 THEN Tup9([x \in 1..9 |-> -I3[x] + Outer(a)[x]])
+  ELSE Tup9([x \in 1..9 |-> (-I3[x] + (IF k = 1 THEN 1 ELSE -1) * Skew(a)[x] + Outer(a)[x]) \div 2])
 CoordAxes == {<<1,0,0>>, <<-1,0,0>>, <<0,1,0>>, <<0,-1,0>>, <<0,0,1>>, <<0,0,-1>>}
-FaceAxes == {a \in [1..3 -> {-1, 0, 1}] : Dot(a, a) = 2}
-BodyAxes == [1..3 -> {-1, 1}]
+FaceAxes == {Tup3(a) : a \in {b \in [1..3 -> {-1, 0, 1}] : Dot(b, b) = 2}}
+BodyAxes == {Tup3(a) : a \in [1..3 -> {-1, 1}]}
 \* euler (sequence xyz, intrinsic): Rx(a) Ry(b) Rz(c)
 EulerRot(e) == MMul(MMul(AxisAngle(<<1,0,0>>, e[1]), AxisAngle(<<0,1,0>>, e[2])), AxisAngle(<<0,0,1>>, e[3]))
 \* xyaxes: x is normalised, y is made orthogonal to x and normalised, z = x cross y  (any positive scale, any skew)
@@ -101,7 +105,7 @@ AllSpellings ==
   \cup {Spell("axisangle", I3, a, n, Z3, Z3, Z3, Z3) : a \in CoordAxes, n \in 0..3}
   \cup {Spell("axisangle", I3, a, 2, Z3, Z3, Z3, Z3) : a \in FaceAxes}
   \cup {Spell("axisangle", I3, a, n, Z3, Z3, Z3, Z3) : a \in BodyAxes, n \in 1..2}
-  \cup {Spell("euler", I3, Z3, 0, e, Z3, Z3, Z3) : e \in [1..3 -> 0..3]}
+  \cup {Spell("euler", I3, Z3, 0, Tup3(e), Z3, Z3, Z3) : e \in [1..3 -> 0..3]}
   \cup {Spell("xyaxes", I3, Z3, 0, Z3, VScl(sx, xy[1]), VAdd(xy[2], VScl(m, xy[1])), Z3) :
           xy \in {p \in CoordAxes \X CoordAxes : Dot(p[1], p[2]) = 0}, sx \in {1, 2}, m \in {0, 1}}
   \cup {Spell("zaxis", I3, Z3, 0, Z3, Z3, Z3, VScl(sz, z)) : z \in CoordAxes, sz \in {1, 3}}
@@ -256,18 +260,20 @@ SinkClass(b) ==
              ELSE IF j \in GeomsOf(cur, b) /\ cur.nodes[j].cls = "" THEN [cur.nodes[j] EXCEPT !.cls = cur.nodes[b].cc]
              ELSE cur.nodes[j]]])
 \* element i moves into a new frame with pose F; its own pose becomes F^-1 o P (joints: position and axis)
-WrapFrame(i, fp) ==
+\* with hoist, a geom's class= moves to the new frame as childclass=
+WrapFrame(i, fp, hoist) ==
   /\ Rw("WrapFrame") /\ i \in 1..Len(cur.nodes) /\ Len(cur.nodes) < MaxNodes + MaxRewrites
+  /\ (hoist => cur.nodes[i].t = "geom" /\ cur.nodes[i].cls # "")
   /\ cur.nodes[i].t \in {"body", "geom", "joint", "frame"}      \* (a replicate's offset / rotation is not a pose)
   /\ LET n == cur.nodes[i]
          F == Pose(RotSeq[fp[1]], fp[2])
          Fi == IF Bug = "wrapinv" THEN F ELSE PInv(F)
          P == Pose(RotOf(n.ori), n.pos)
          Q == PMul(Fi, P)
-         fr == Node("frame", n.up, 0, n.ord, SQuat(F.R), F.t, "", "", -1, "", Z3, FALSE, 0)
+         fr == Node("frame", n.up, 0, n.ord, SQuat(F.R), F.t, "", IF hoist THEN n.cls ELSE "", -1, "", Z3, FALSE, 0)
          k == Len(cur.nodes) + 1
          moved == IF n.t = "joint" THEN [n EXCEPT !.up = k, !.pos = Q.t, !.axis = MV(Fi.R, n.axis)]
-                  ELSE [n EXCEPT !.up = k, !.ori = SQuat(Q.R), !.pos = Q.t]
+                  ELSE [n EXCEPT !.up = k, !.ori = SQuat(Q.R), !.pos = Q.t, !.cls = IF hoist THEN "" ELSE @]
      IN Done([cur EXCEPT !.nodes = Append([@ EXCEPT ![i] = moved], fr)])
 \* <replicate> written out: the replicate and its (single, direct) geom disappear, count geoms named name_k appear
 \* in the replicate's container with the local pose T^k o P
@@ -304,7 +310,7 @@ Next ==
                                             \/ Explicitize(i) \/ Implicitize(i)
                                             \/ \E c \in {"c1"} : HoistClass(i, c)
                                             \/ SinkClass(i)
-                                            \/ \E fp \in FramePoses : WrapFrame(i, fp)
+                                            \/ \E fp \in FramePoses, h \in BOOLEAN : WrapFrame(i, fp, h)
                                             \/ \E m \in {2, 3} : EditMass(i, m)
                                             \/ Unroll(i)
   \/ ToggleAngle \/ ToggleFuse \/ ToggleDiscard
@@ -335,6 +341,8 @@ EditApplied ==
 MC_AllRw == {"Respell", "ToggleAngle", "Explicitize", "Implicitize", "HoistClass", "SinkClass", "WrapFrame", "ToggleFuse",
              "ToggleDiscard", "EditMass", "Unroll"}
 MC_NoRepl == {}
+MC_OnlyUnroll == {"Unroll"}
+MC_OnlyToggle == {"ToggleAngle"}
 MC_ReplRw == {"Unroll", "WrapFrame", "ToggleAngle", "ToggleDiscard", "ToggleFuse"}
 MC_Repl1 == {<<2, <<0, 1, 0>>, 1>>}
 MC_Repl2 == {<<2, <<0, 1, 0>>, 1>>, <<3, <<1, 0, 1>>, 0>>, <<3, <<0, 2, 0>>, 3>>}
